@@ -6,7 +6,7 @@ from hypothesis import strategies as st, assume
 import scikit_tt.solvers.sle as sle
 from scikit_tt.tensor_train import TT
 from vt import dense, gen, build
-from vt.common import Sub, Violation, require
+from vt.common import Sub, Violation, require, target
 from vt.build import close, require_consistent
 
 PROPERTY_ID = 'C07'
@@ -151,6 +151,8 @@ def body(c):
     for i, t in enumerate((op, g, rhs)):
         build.require_unchanged(t, snap[i], ['operator', 'initial guess', 'right-hand side'][i])
     if not capped:
+        if errs[0] > 1e-6 * scale:
+            target(max(errs[k + 1] / max(errs[k], 1e-300) for k in range(len(errs) - 1) if errs[k] > 1e-9 * scale), 'worst error ratio between sweeps')
         require(errs[1] <= errs[0] + slack, 'descent_vs_guess', 'energy error %.3e after one sweep > %.3e of the guess' % (errs[1], errs[0]))
         for k in range(1, len(errs) - 1):
             require(errs[k + 1] <= errs[k] + slack, 'descent_in_sweeps',
